@@ -14,7 +14,7 @@ RULE = ('a faulty carrier — a file with a lexical or a syntax error, or a decl
         'placement, order)')
 
 LOCAL_KINDS = {'struct-dup-element', 'subrange-min-gt-max', 'subrange-min-eq-max', 'enum-dup-value', 'const-no-init',
-               'undefined-var-rhs', 'undefined-var-target', 'undefined-var-subscript', 'undefined-var-condition', 'undefined-var-call-arg', 'task-undefined', 'fb-self-instance', 'const-fb',
+               'undefined-var-rhs', 'undefined-var-target', 'undefined-var-subscript', 'undefined-var-condition', 'undefined-var-call-arg', 'undefined-var-named-like-function', 'undefined-var-named-like-pou', 'task-undefined', 'fb-self-instance', 'const-fb',
                # a name declared twice is a fault of the set wherever the two declarations stand (same file, two files, copies word for word)
                'dup-verbatim-adjacent', 'dup-pou-name', 'dup-type-name'}
 # a construct the analyzer answers with P9999 "not implemented" (an initialised simple type): its answer ends the analysis
@@ -175,7 +175,14 @@ def run(ctx):
     def do_cli(i):
         c = cases[i]
         files = {c['names'][j]: t for j, t in enumerate(c['texts'])}
-        return cli.check_files(files, order=[c['names'][j] for j in range(len(files))])
+        r = cli.check_files(files, order=[c['names'][j] for j in range(len(files))])
+        # the same set named by its directory, each file in turn present there as a symbolic link to a file stored elsewhere
+        r['linked'] = []
+        if c['scheme'] != 'dirs' and len(files) >= 2 and i % 3 == 0:
+            for j in range(len(files)):
+                rl = cli.check_files(files, as_dir=True, symlinks={c['names'][j]})
+                r['linked'].append((c['names'][j], rl['rc'], cli.strip_ansi(rl['stderr'])[-200:]))
+        return r
     with cf.ThreadPoolExecutor(12) as ex:
         cli_res = dict(zip(sample_idx, ex.map(do_cli, sample_idx)))
     prev = None
@@ -219,6 +226,11 @@ def run(ctx):
             if cli_fail != (status == 'err'):
                 ctx.violations.append({'stream': 'cli', 'case': show, 'impl': f"rc={r['rc']} {cli.strip_ansi(r['stderr'])[-300:]}", 'model': mo,
                                        'what': f'`ironplcc check` exit status {r["rc"]} disagrees with the in-memory project ({status})'})
+            for (lname, lrc, lerr) in r.get('linked', []):
+                ctx.count('cli-runs-directory-with-symlink')
+                if (lrc != 0) != (status == 'err'):
+                    ctx.violations.append({'stream': 'cli', 'case': dict(show, symlinked_file=lname), 'impl': f'rc={lrc} {lerr}', 'model': mo,
+                                           'what': f'`ironplcc check <directory>` with {lname} present as a symbolic link exits {lrc}, the set itself is {status}'})
         ctx.sample({'fault': c['fault'], 'mode': c['mode'], 'files': len(c['files']), 'impl': io[:100]}, limit=4)
     ctx.violations.sort(key=lambda v: sum(len(t) for t in v['case']['texts']))
     ctx.corr_fail.sort(key=lambda v: sum(len(t) for t in v['case']['texts']))
